@@ -348,9 +348,11 @@ def interpret_cc():
                   "ss << '(' << Logic::protectName(name, false) << ' ' << (val == l_True ? \"true\" : (val == l_False ? \"false\" : \"unknown\")) << ')'; } "
                   "ss << ')'; notify_formatted(false, \"%s\", ss.str().c_str());")
     if loop + "ss.seekp(-1, std::ios::cur); ss << ')'; notify_formatted(false, ss.str().c_str());" in b:
-        res["assign"] = "seekp-raw-format"
+        res["assign"] = dict(raw=True, seekp=True, fmt=True)
+    elif loop + "if (ss.tellp() > 1) { ss.seekp(-1, std::ios::cur); } ss << ')'; notify_formatted(false, \"%s\", ss.str().c_str());" in b:
+        res["assign"] = dict(raw=True, seekp=False, fmt=False)
     elif fixed_loop in b:
-        res["assign"] = "fixed"
+        res["assign"] = dict(raw=False, seekp=False, fmt=False)
     else:
         raise TranslateError("Interpret::getAssignment: printing loop not recognised")
     b = norm(function_body(t, r"void\s+printAstTermNode\s*\(\s*ASTNode\s+const\s*&\s*astNode\s*\)\s*\{", "printAstTermNode"))
@@ -455,7 +457,9 @@ def generate():
     L.append("Definition gen_safe_prefix_char : string := %s." % coq_str(ip["safe_char"]))
     L.append("Definition gen_safe_prefix_if : string := %s." % coq_str(ip["safe_if"]))
     L.append("Definition gen_safe_prefix_else : string := %s." % coq_str(ip["safe_else"]))
-    L.append("Definition gen_assignment_seekp_raw_format : bool := %s." % coq_bool(ip["assign"] == "seekp-raw-format"))
+    L.append("Definition gen_assignment_raw_names : bool := %s." % coq_bool(ip["assign"]["raw"]))
+    L.append("Definition gen_assignment_seekp_unguarded : bool := %s." % coq_bool(ip["assign"]["seekp"]))
+    L.append("Definition gen_assignment_text_as_format : bool := %s." % coq_bool(ip["assign"]["fmt"]))
     L.append("Definition gen_echo_raw_names : bool := %s." % coq_bool(ip["echo"] == "raw"))
     L.append("Definition gen_core_raw_names : bool := %s." % coq_bool(ip["core"] == "raw"))
     L.append("Definition gen_sort_raw_names : bool := %s." % coq_bool(ip["sort"] == "raw"))
